@@ -171,6 +171,7 @@ class Module:
             if k not in fq_cache:
                 fq_cache[k] = alpha.functions_with_qualnames(tree_)
             return fq_cache[k]
+        self.normalized["respelled"] = normalize.respell_new_constructs(self.tree, name, alpha.load_reference(), fq)
         self.normalized["comprehensions"] = normalize.comprehensions_to_loops(self.tree, name, alpha.load_reference(), fq)
         self.restored_locals = []
         alpha.restore_local_names(self.tree, name, self.restored_locals, fq)
